@@ -296,12 +296,34 @@ def run(res, a):
                 "%meta ioatt x cp:cpu, type:output, index:0\n%meta ioatt x cp:bm, type:output, index:0\n%meta bmdef global registersize:8\n")
         xreqs.append({"bm": {"basm": text, "nodyn": True}, "env": [{"in": [], "outrecv": [-1]}] * 40, "ticks": 40, "dump": "ext"})
         xmeta.append((text, "the value the program computes with its macro calls replaced by the macro's body (%d)" % regs[0], regs[0]))
+    # a replicated list (n:db a,b,c is the list n times over) read at an offset, and two processors that share their code section but
+    # not their data section
+    for _ in range(3 if a.tier == "quick" else 30):
+        lst = [rnd.randrange(1, 250) for _ in range(rnd.randint(2, 4))]
+        rep = rnd.randint(2, 3)
+        off = rnd.randrange(rep * len(lst))
+        text = ("%section code .romtext iomode:async\n  entry _start\n_start:\n  mov r1, rom:tab\n" + "  inc r1\n" * off +
+                "  mov r0, rom:[r1]\n  mov o0, r0\nhalt:\n  j halt\n%endsection\n"
+                "%section consts .romdata\n  pre db 0x01\n  tab " + ("%d:db " % rep) + ", ".join(hex(v) for v in lst) + "\n  post db 0x02\n%endsection\n"
+                "%meta cpdef cpu romcode:code, romdata:consts, ramsize:0\n%meta iodef x type:io\n"
+                "%meta ioatt x cp:cpu, type:output, index:0\n%meta ioatt x cp:bm, type:output, index:0\n%meta bmdef global registersize:8\n")
+        xreqs.append({"bm": {"basm": text, "nodyn": True}, "env": [{"in": [], "outrecv": [-1]}] * 40, "ticks": 40, "dump": "ext"})
+        xmeta.append((text, "element %d of the list %s repeated %d times (%d)" % (off, lst, rep, lst[off % len(lst)]), lst[off % len(lst)]))
+    for _ in range(2 if a.tier == "quick" else 20):
+        v1, v2 = rnd.sample(range(1, 250), 2)
+        text = ("%section code .romtext iomode:async\n  entry _start\n_start:\n  mov r1, rom:k\n  mov r0, rom:[r1]\n  mov o0, r0\nhalt:\n  j halt\n%endsection\n"
+                "%section d1 .romdata\n  k db " + hex(v1) + "\n%endsection\n%section d2 .romdata\n  k db " + hex(v2) + "\n%endsection\n"
+                "%meta cpdef cpa romcode:code, romdata:d1, ramsize:0\n%meta cpdef cpb romcode:code, romdata:d2, ramsize:0\n"
+                "%meta iodef x type:io\n%meta ioatt x cp:cpa, type:output, index:0\n%meta ioatt x cp:bm, type:output, index:0\n"
+                "%meta iodef y type:io\n%meta ioatt y cp:cpb, type:output, index:0\n%meta ioatt y cp:bm, type:output, index:1\n%meta bmdef global registersize:8\n")
+        xreqs.append({"bm": {"basm": text, "nodyn": True}, "env": [{"in": [], "outrecv": [-1, -1]}] * 20, "ticks": 20, "dump": "ext"})
+        xmeta.append((text, "its own constant, the two processors %d and %d" % (v1, v2), [v1, v2]))
     for (text, what, val), r in zip(xmeta, simlib.run_sims(xreqs)):
         res.count_case(text, nontrivial=True)
         if r.get("err"):
             viol.append((("the machine assembled from a well-formed source cannot be simulated: %s" if "process dies" in r["err"] else
                           "the assembler rejects a well-formed source: %s") % r["err"], {"source": {"text": text, "nodyn": True}}))
-        elif r["ticks"][-1]["out"] != [val]:
+        elif r["ticks"][-1]["out"] != (val if isinstance(val, list) else [val]):
             viol.append(("the program writes %s to o0; the simulated machine ends with o0 = %s" % (what, r["ticks"][-1]["out"]),
                          {"source": {"text": text, "nodyn": True}}))
     hist["wide_data_and_macro_sources"] = len(xreqs)
